@@ -92,4 +92,8 @@ Atomic == ReadC(S, Key) \in {Absent} \cup {Contents[k] : k \in 1..(IF InFlight T
 \* (or the one being uploaded)
 Durable == Returned > 0 =>
               ReadC(S, Key) \in {Contents[Returned]} \cup (IF InFlight THEN {Contents[n]} ELSE {})
+\* the factored computation of post-power-loss reads (used by LocalFSTrace) agrees
+\* with the definition by enumeration of all crash states
+FactorOK == crashed \/ \A p \in {Key, Tmp(1), Tmp(2), DirP, <<"store", "nosuch">>} :
+               PossibleReads(S, p) = {ReadC(X, p) : X \in CrashStates(S)}
 =============================================================================
